@@ -1834,6 +1834,26 @@ def snip_sig(k, which, call):
     return Snippet("sig", ([imp] if imp else []) + ["def f%d() -> None:" % k, "    " + body], fn=fn, call=call)
 
 
+def snip_tvfail(k, n, constrained):
+    """A generic function with n type variables, each made unsolvable in the same call: one incompatible_call whose
+    message lists one sub-error per type variable (resolve_bounds_map goes over `all_typevars`, a set at the call site)."""
+    tys = ["int", "str", "bytes", "float"]
+    lits = ["'a'", "1", "2.0", "b'x'"]          # literal i conflicts with callback type i
+    L = ["from typing import Callable, TypeVar"]
+    if constrained:
+        L += ["TV%d_%d = TypeVar('TV%d_%d', int, str)" % (k, i, k, i) for i in range(n)]
+        params = ", ".join("a%d: TV%d_%d, b%d: TV%d_%d" % (i, k, i, i, k, i) for i in range(n))
+        L += ["def g%d(%s) -> None: ..." % (k, params), "def f%d() -> None:" % k,
+              "    g%d(%s)" % (k, ", ".join("1, 's'" if i % 2 == 0 else "'t', 2" for i in range(n)))]
+    else:
+        L += ["TV%d_%d = TypeVar('TV%d_%d')" % (k, i, k, i) for i in range(n)]
+        L += ["def cb%d_%d(x: %s) -> None: ..." % (k, i, tys[i]) for i in range(n)]
+        params = ", ".join("a%d: TV%d_%d, f%d: Callable[[TV%d_%d], None]" % (i, k, i, i, k, i) for i in range(n))
+        L += ["def g%d(%s) -> None: ..." % (k, params), "def f%d() -> None:" % k,
+              "    g%d(%s)" % (k, ", ".join("%s, cb%d_%d" % (lits[i], k, i) for i in range(n)))]
+    return Snippet("tvfail", L, n=n)
+
+
 def snip_control(k, which):
     body = ["a.nope", "print(a + 'x')", "b: str = a\n    print(b)", "reveal_type(a)", "len(a)", "a(1)"][which % 6]
     return Snippet("control", ["def f%d(a: int) -> None:" % k, "    " + body])
@@ -1942,6 +1962,9 @@ def gen_programs(ctx, worlds):
         snips.append(snip_control(next(k), w))
     for n in (1, 2, 4):
         snips.append(snip_inset(next(k), NAMEPOOL[:n]))
+    for n in (2, 3, 4):
+        snips.append(snip_tvfail(next(k), n, False))
+    snips.append(snip_tvfail(next(k), 2, True))
     # --- seeded random
     n_rand = ctx.n(60, 900)
     for _ in range(n_rand):
@@ -1970,8 +1993,10 @@ def gen_programs(ctx, worlds):
             snips.append(snip_try(kk, rng.randint(1, 4), rng.choice(["try", "try", "with"])))
         elif r < 0.93:
             snips.append(snip_defnodes(kk, rng.randint(1, 4), rng.randrange(2)))
-        elif r < 0.97:
+        elif r < 0.96:
             snips.append(snip_inset(kk, rng.sample(NAMEPOOL, rng.randint(1, 5))))
+        elif r < 0.985:
+            snips.append(snip_tvfail(kk, rng.randint(2, 4), rng.random() < 0.3))
         else:
             snips.append(snip_control(kk, rng.randrange(6)))
     rng.shuffle(snips)
